@@ -98,6 +98,17 @@ def rule_E1_E6(run_, pkg, an):
                 bad.append(ev)
             elif family == "pose" and ev.kind == "AttrStore" and not ev.path[0].startswith("<global"):
                 bad.append(ev)
+        # E7: queries keep no state at all -- a cache written by a query makes later answers depend on the call history
+        # (stale after an in-place change of a pose), so "repeated calls return identical values" no longer follows from purity
+        stateful = [ev for ev in evs if ev.kind == "AttrStore" and not ev.path[0].startswith("<global") and not is_jacobian_perturbation(ev)
+                    and not (family == "graph" and path_str(ev.path) in ("self._chi2",))]
+        key7 = "C15-E7/%s" % name
+        if stateful:
+            ev = stateful[0]
+            run_.violation(key7, "C15-E7-queries-stateless", "query %s stores %s: its answers can depend on earlier calls" % (name, ev.describe()),
+                           where=ev.where())
+        else:
+            run_.ok(key7, "C15-E7-queries-stateless")
         key = "C15-E1/%s" % name
         if bad:
             ev = bad[0]
@@ -274,6 +285,12 @@ def rule_E5(run_, pkg, an):
         run_.check(ok, "C15-E5/optimize/%s@%s" % (p, ev.fn.name), "C15-E5-optimize-footprint",
                    "optimize() modifies %s (%s)" % (p, ev.describe()), where=ev.where())
     run_.floor("protected writes of optimize", n, 2)
+    # the fixed flag may only be written for the first vertex, to True, exactly under `if fix_first_pose` (shared with C06-a)
+    from .. import optim_rules
+    oa = optim_rules.analyse(pkg)
+    for f in oa.findings:
+        if f.rule == "C06-a-who-may-fix":
+            run_.check(f.ok, "C15-E5/" + f.key, "C15-E5-optimize-footprint", f.what, where=f.where)
 
 
 def positive_fixture(run_, pkg):
